@@ -421,12 +421,12 @@ Proof.
     destruct (local_feature s (rc_srv c)) as [sf|];
       [|cbn [fst snd app]; rewrite revoked_call, revoke_nil; exact (inv_auth _ _ I)].
     rewrite <- andb_assoc.
-    rewrite (del_tests s sf (default_dev pe (rc_cli c)) (rf_addr en rf) (bi_single _ (inv_b _ _ I))).
+    rewrite (del_tests s sf (p_ski pe) (default_dev pe (rc_cli c)) (rf_addr en rf) (bi_single _ (inv_b _ _ I))).
     destruct (role_type_ok (lf_role sf) (lf_type sf) RServer (lf_type sf)); cbn [andb];
       [|cbn [fst snd app]; rewrite revoked_call, revoke_nil; exact (inv_auth _ _ I)].
     destruct (eqb_faddr (default_dev pe (rc_cli c)) (rf_addr en rf)) eqn:Eown; cbn [andb];
       [|cbn [fst snd app]; rewrite revoked_call, revoke_nil; exact (inv_auth _ _ I)].
-    destruct (existsb (hit_e (default_dev pe (rc_cli c)) sf) (binds s));
+    destruct (existsb (hit_e (p_ski pe) (default_dev pe (rc_cli c)) sf) (binds s));
       [|cbn [fst snd app]; rewrite revoked_call, revoke_nil; exact (inv_auth _ _ I)].
     cbn [fst snd]. unfold revoked_seen. rewrite flat_map_app.
     fold (revoked_seen (call_result p ctr ack false (nm_addr (p_addr pe)) (nm_addr (Some LOCAL_DEV)))).
